@@ -28,7 +28,8 @@ LIBSIMRT = os.path.join(core.BUILD_DIR, "libsimrt.so")
 MAXJOBS, MAXVIOL = 8, 16
 NSETS, NA0 = 4, 2  # input sets x initial-A variants per kernel
 VKIND = {1: "unknown-address(red zone or foreign memory)", 2: "other-job's-memory",
-         3: "store-into-input", 4: "mutable-static-storage", 5: "step-cap"}
+         3: "store-into-input", 4: "mutable-static-storage", 5: "step-cap",
+         6: "hardware fault (SIGSEGV/SIGBUS/SIGFPE/SIGILL) inside the kernel"}
 POLICIES = ["seq", "random", "rr", "pct"]
 
 
@@ -55,7 +56,8 @@ class Result(ctypes.Structure):
                 ("probe_switch_on_A", ctypes.c_uint64), ("probe_switch_on_stack", ctypes.c_uint64),
                 ("probe_switch_on_table", ctypes.c_uint64), ("probe_switch_on_input", ctypes.c_uint64),
                 ("probe_concurrent_inside", ctypes.c_uint64), ("probe_resumed_after_two", ctypes.c_uint64),
-                ("probe_max_inside", ctypes.c_uint64), ("pc_guards", ctypes.c_uint64)]
+                ("probe_max_inside", ctypes.c_uint64), ("pc_guards", ctypes.c_uint64),
+                ("max_stack_used", ctypes.c_uint64), ("fault_signal", ctypes.c_int32), ("pad", ctypes.c_int32)]
 
 
 _RT = None
@@ -352,9 +354,11 @@ class Arena:
         self.off = self.RED
         self.fill = fill
 
-    def alloc(self, arr):
+    def alloc(self, arr, skew=0):
+        """``skew``: the buffer starts that many bytes past a 64-byte boundary (UFCx promises the
+        alignment of the scalar type, nothing more)."""
         n = arr.nbytes
-        off = (self.off + 63) & ~63
+        off = ((self.off + 63) & ~63) + skew
         if off + n + self.RED > self.buf.size:
             raise core.HarnessError("kernsim arena too small")
         self.buf[off - self.RED: off] = self.fill
@@ -386,9 +390,12 @@ def run_batch(module, kerns_sets, policy, param, est, seed, poison, arena, fill,
     handles = []
     for j, (kern, iset, ai) in enumerate(kerns_sets):
         locs = {}
+        # every other job gets buffers that are aligned for their scalar type only
+        skew = (lambda a: int(np.dtype(a.dtype).alignment if not np.issubdtype(a.dtype, np.complexfloating)
+                              else a.real.dtype.alignment)) if j % 2 else (lambda a: 0)
         for key in ("w", "c", "x", "ent", "perm"):
-            locs[key] = arena.alloc(iset[key])
-        locs["A"] = arena.alloc(iset["A0"][ai])
+            locs[key] = arena.alloc(iset[key], skew(iset[key]) if key in ("w", "c", "x") else 0)
+        locs["A"] = arena.alloc(iset["A0"][ai], skew(iset["A0"][ai]))
         # custom_data: opaque to generated kernels; every other job gets a (read-only, poisoned)
         # block, the others NULL - the result may depend on neither
         if j % 2:
@@ -525,6 +532,9 @@ def exec_run(module, palettes, ref, est, scn, arena):
         st["jobs"] += len(ks)
         st["accesses"] += int(res.accesses)
         st["switches"] += int(res.switches)
+        st["max_kernel_stack_bytes"] = max(st["max_kernel_stack_bytes"], int(res.max_stack_used))
+        if len(ks) > 1:
+            st["probe_jobs_with_minimally_aligned_buffers"] += len(ks) // 2
         st["policy_" + b["policy"]] += 1
         for f in ("probe_switch_on_A", "probe_switch_on_stack", "probe_switch_on_table", "probe_switch_on_input",
                   "probe_concurrent_inside", "probe_resumed_after_two"):
@@ -576,7 +586,9 @@ def _request_job(a):
     seen = set()
     for scn in scns:
         v, st, dg = exec_run(module, palettes, ref, est, scn, arena)
+        mx = st.pop("max_kernel_stack_bytes", 0)
         out["stats"].update(st)
+        out["stats"]["max_kernel_stack_bytes"] = max(out["stats"].get("max_kernel_stack_bytes", 0), mx)
         out["digests"].append(dg)
         if len(out["samples"]) < 2:
             out["samples"].append(scn)
@@ -752,7 +764,9 @@ def run_check(prop, tier, base, replay_path=None):
     wall = time.time() - t0
     stats = Counter()
     for r in results:
+        mx = r["stats"].pop("max_kernel_stack_bytes", 0)
         stats.update(r["stats"])
+        stats["max_kernel_stack_bytes"] = max(stats.get("max_kernel_stack_bytes", 0), mx)
     digs = set()
     for r in results:
         digs.update((r["name"], r["opt"], d) for d in r["digests"])
@@ -780,6 +794,7 @@ def run_check(prop, tier, base, replay_path=None):
         "jobs": stats["jobs"],
         "memory_accesses_checked": stats["accesses"],
         "context_switches": stats["switches"],
+        "max_kernel_stack_bytes": stats.get("max_kernel_stack_bytes", 0),
         "batches_with_switches_and_2plus_jobs": stats["nontrivial_batches"],
         "policies": {k[len("policy_"):]: v for k, v in stats.items() if k.startswith("policy_")},
         "runs_per_hour": round(nruns_total / max(wall, 1e-6) * 3600),
